@@ -72,6 +72,8 @@ pub fn gen_config(rng: &mut Rng, o: &BenchOpts) -> Config {
         tolerance: None,
         timeout_set: false,
         timeout_at_block: None,
+        wake_on_drop: false,
+        drop_handles_first: false,
     }
 }
 
